@@ -251,6 +251,11 @@ class WorkQueue:
         self._channel: Queue[Any] = Queue()
         self._stopped = False
         self._pump_tasks: set[Task[None]] = set()
+        # work that has left the graph without having been delivered (of failed
+        # groups); it must still be cancelled when the work queue is cancelled
+        self._discarded_tasks: list[WorkTask] = []
+        self._discarded_streams: list[Stream] = []
+        self._discarded_work: list[Work] = []
 
         new_groups, new_streams = self._maybe_integrate_work(initial_work)
         non_empty_initial_root_groups = self._prune_empty_groups(new_groups)
@@ -296,12 +301,31 @@ class WorkQueue:
     async def cancel(self, reason: BaseException | None = None) -> None:
         """Cancel all pending work, awaiting any asynchronous cleanup."""
         self._stopped = True
-        self._channel.put_nowait(_STOP)  # wake up a parked event consumer
         cancel_awaitables: list[Awaitable[Any]] = []
         for group in list(self._root_groups):
             self._cancel_group(group, reason, cancel_awaitables)
         for stream in list(self._root_streams):
             self._cancel_stream(stream, reason, cancel_awaitables)
+        # work of failed groups that has been removed from the graph
+        for task in self._discarded_tasks:
+            self._cancel_task(task, reason, cancel_awaitables)
+        for stream in self._discarded_streams:
+            self._cancel_stream(stream, reason, cancel_awaitables)
+        for work in self._discarded_work:
+            self._cancel_work(work, reason, cancel_awaitables)
+        # results that have completed, but not been integrated into the graph yet
+        channel = self._channel
+        while True:
+            try:
+                graph_event = channel.get_nowait()
+            except QueueEmpty:
+                break
+            if isinstance(graph_event, _TaskSuccess):
+                self._cancel_work(graph_event.result.work, reason, cancel_awaitables)
+            elif isinstance(graph_event, _StreamItems):
+                for item in graph_event.items:
+                    self._cancel_work(item.work, reason, cancel_awaitables)
+        channel.put_nowait(_STOP)  # wake up a parked event consumer
         for pump_task in self._pump_tasks:
             pump_task.cancel()
         cancel_awaitables.extend(self._pump_tasks)
@@ -343,6 +367,30 @@ class WorkQueue:
         if task_node:
             for child_stream in task_node.child_streams:
                 self._cancel_stream(child_stream, reason, cancel_awaitables)
+            return
+        # The task is not part of the graph (not started yet, or removed). When
+        # it was executed early it may have completed already; then the work
+        # carried by its result is not known to the graph and cancelled here.
+        try:
+            result = task.computation.result()
+        except BaseException:  # noqa: BLE001
+            return
+        if isinstance(result, WorkResult):
+            self._cancel_work(result.work, reason, cancel_awaitables)
+
+    def _cancel_work(
+        self,
+        work: Work | None,
+        reason: BaseException | None,
+        cancel_awaitables: list[Awaitable[Any]],
+    ) -> None:
+        """Cancel work that is not (or no longer) part of the graph."""
+        if not work:
+            return
+        for task in work.tasks:
+            self._cancel_task(task, reason, cancel_awaitables)
+        for stream in work.streams:
+            self._cancel_stream(stream, reason, cancel_awaitables)
 
     def _cancel_stream(
         self,
@@ -582,6 +630,12 @@ class WorkQueue:
         task_node = self._task_nodes.get(task)
         if task_node:
             task_node.value = value
+        else:
+            # all groups of the task have failed meanwhile: its work will never
+            # be delivered, but must be cancelled in the end
+            if work:
+                self._discarded_work.append(work)
+            return []
         self._maybe_integrate_work(work, task)
 
         group_events: list[GroupValuesEvent | GroupSuccessEvent] = []
@@ -687,6 +741,11 @@ class WorkQueue:
         del group_nodes[group]
         for task in list(group_node.tasks):
             if all(task_group not in group_nodes for task_group in task.groups):
+                # remember the task and the streams it produced for cancellation
+                task_node = self._task_nodes.get(task)
+                if task_node:
+                    self._discarded_streams.extend(task_node.child_streams)
+                self._discarded_tasks.append(task)
                 self._remove_task(task)
         for child_group in group_node.child_groups:
             child_group_node = group_nodes.get(child_group)
